@@ -75,7 +75,7 @@ Proof.
       (destruct (find_field sch_int name); simpl; [|exact I]);
       match goal with |- nnz (if ?c then _ else _) => destruct c end; exact I.
   - intros gs Hgs g Hg c Hc. vm_compute in Hgs. inversion Hgs; subst; clear Hgs.
-    destruct Hg as [<-|[]]. destruct Hc as [<-|[<-|[]]]; split; try (right; exact I); reflexivity.
+    destruct Hg as [<-|[]]. destruct Hc as [<-|[<-|[]]]; right; exact I.
   - vm_compute. reflexivity.
 Qed.
 
